@@ -151,8 +151,11 @@ def build_population(prog, name='popnet'):
         if p['kind'] == 'S':
             params['aux/q'] = [float(X0['q'] + first[pi] + u) for u in range(p['n'])]
         populations[f'p{pi + 1}'] = PopulationTemplate(f'p{pi + 1}', node, p['n'], params=params)
-    pre = EdgeTemplate('cpre', operators=[OperatorTemplate('cpre_op', equations=['m_out = 3*m_pre'],
-                                                            variables={'m_out': 'output(0.0)', 'm_pre': 'input(0.0)'})])
+    # one coupling operator with a constant gain; the second template differs in that constant only (same equations)
+    cpre_op = OperatorTemplate('cpre_op', equations=['m_out = g*m_pre'],
+                               variables={'m_out': 'output(0.0)', 'm_pre': 'input(0.0)', 'g': 3.0})
+    pre = EdgeTemplate('cpre', operators=[cpre_op])
+    pre6 = EdgeTemplate('cpre6', operators={cpre_op: {'g': 6.0}})
     diff = EdgeTemplate('cdiff', operators=[OperatorTemplate('cdiff_op', equations=['m_out = m_pre - m_post'],
                                                               variables={'m_out': 'output(0.0)', 'm_pre': 'input(0.0)', 'm_post': 'input(0.0)'})])
     # two chained coupling operators, declared against their dependency order: m_out = 2*g, g = 3*m_pre
@@ -165,6 +168,8 @@ def build_population(prog, name='popnet'):
         kw = {}
         if c['cpl'] == 'pre':
             kw = dict(edge=pre, edge_var_map={'m_pre': 'source'})
+        elif c['cpl'] == 'pre6':
+            kw = dict(edge=pre6, edge_var_map={'m_pre': 'source'})
         elif c['cpl'] == 'pre2':
             kw = dict(edge=pre2, edge_var_map={'m_pre': 'source'})
         elif c['cpl'] == 'diff':
